@@ -200,6 +200,14 @@ func (e *Engine) ctxNative(fi *FnInfo) *Native {
 			id := s.alloc(&Object{ctx: &CtxData{parent: p, done: po.ctx.done, isValue: true, key: args[1], val: args[2], err: Iface{}, cause: Iface{}}, label: "ctx.value"})
 			return e.ctxIface(id)
 		})
+	case "context.WithoutCancel":
+		// keeps the parent's values (lookups walk the parent chain), drops its cancellation and deadline
+		return simple(func(e *Engine, s *State, gi int, args []Value) Value {
+			p := e.ctxOf(s, args[0])
+			done := s.alloc(&Object{ch: &ChanData{cap: 0}, label: "ctx.done"})
+			id := s.alloc(&Object{ctx: &CtxData{parent: p, done: done, err: Iface{}, cause: Iface{}, site: "WithoutCancel"}, label: "ctx"})
+			return e.ctxIface(id)
+		})
 	case "context.WithTimeout", "context.WithDeadline":
 		isTimeout := name == "context.WithTimeout"
 		return simple(func(e *Engine, s *State, gi int, args []Value) Value {
@@ -373,6 +381,12 @@ func (e *Engine) protoNative(fi *FnInfo) *Native {
 			if p.obj == 0 {
 				return Tuple{Slice{}, Iface{}}
 			}
+			// a message whose every field is absent or zero encodes to zero bytes
+			if st, ok := m.t.Underlying().(*types.Pointer).Elem().Underlying().(*types.Struct); ok {
+				if z := e.protoIsZero(s, e.load(s, p), st); e.decide(s, z) {
+					return Tuple{Slice{}, Iface{}}
+				}
+			}
 			snap := e.deepClone(s, p, map[int]int{})
 			id := s.alloc(&Object{v: &ArrayV{e: []Value{Tuple{snap}}}, label: "wire-token"})
 			return Tuple{Slice{obj: id, ln: 1, cap: 1}, Iface{}}
@@ -399,6 +413,58 @@ func (e *Engine) protoNative(fi *FnInfo) *Native {
 		})
 	}
 	return nil
+}
+
+// protoIsZero: does a generated message struct hold only absent / zero-valued fields (so that its
+// wire encoding is empty)? Unexported bookkeeping fields are ignored.
+func (e *Engine) protoIsZero(s *State, v Value, st *types.Struct) *Term {
+	ts := e.ts
+	sv, ok := v.(*StructV)
+	if !ok {
+		return ts.False
+	}
+	acc := ts.True
+	for i := 0; i < st.NumFields(); i++ {
+		f := st.Field(i)
+		if !f.Exported() {
+			continue
+		}
+		switch x := sv.f[i].(type) {
+		case *Term:
+			if x.w == 0 {
+				acc = ts.And(acc, ts.Not(x))
+			} else {
+				acc = ts.And(acc, ts.Eq(x, ts.Const(x.w, 0)))
+			}
+		case string:
+			if x != "" {
+				return ts.False
+			}
+		case *SymStr:
+			if len(x.b) > 0 {
+				return ts.False
+			}
+		case Ptr:
+			if x.obj != 0 {
+				return ts.False
+			}
+		case Slice:
+			if x.ln != 0 {
+				return ts.False
+			}
+		case MapV:
+			if x.obj != 0 && len(e.obj(s, x.obj).m.keys) > 0 {
+				return ts.False
+			}
+		case Iface:
+			if x.t != nil {
+				return ts.False
+			}
+		default:
+			return ts.False
+		}
+	}
+	return acc
 }
 
 var _ *ssa.Function
